@@ -316,6 +316,21 @@ def run(ck, facts):
     n_repr = sum(1 for s in srcs if re.search(r"#\s*\[\s*repr\s*\(\s*C\s*\)\s*\]", s))
     ck.expect(n_repr >= 2, "R5", "macro::gen_bridge/forces-repr(C)", "%d repr(C) templates" % n_repr, "gen_bridge no longer adds #[repr(C)] to structs and enums (found %d templates)" % n_repr, C.loc(gb))
 
+    # by-value structs get #[repr(C)] unless they carry a `repr` of their own: the flag is set for the `repr` attribute only
+    exf = mac.fn("AttributeInfo::extract")
+    repr_conds = []
+    for n, st in C.with_conditions(C.fn_body(exf)):
+        if n.get("k") == "assign" and C.strip(n["l"]).get("n") == "repr" and str(C.strip(n["r"]).get("v")).lower() == "true":
+            lits = set()
+            for kind, a, b in st:
+                if kind == "if" and b == "t":
+                    lits |= {y["v"] for y in C.walk(a) if y.get("k") == "lit" and y.get("t") == "str"}
+                elif kind == "arm":
+                    lits |= set(C.pattern_str_lits({"k": "match", "arms": [b], "s": {}}))
+            repr_conds.append(sorted(lits))
+    ck.expect(repr_conds == [["repr"]], "R5", "macro::extract/repr-flag-only-for-repr", str(repr_conds),
+              "AttributeInfo::extract sets `repr` under %s (expected only for the `repr` attribute): a by-value struct carrying that attribute no longer gets #[repr(C)], rustc may reorder its fields while the C header keeps declaration order" % repr_conds, C.loc(exf))
+
     # ---------------- R6 passing mode (gate vs macro vs C backend)
     core = facts.core
     lsp = core.fn("hir::lowering::LoweringContext::lower_self_param")
